@@ -651,12 +651,10 @@ def rule_G8(ctx):
             r = strip_casts(n["r"])
             if r["k"] != "ref" or r["name"] not in pn:
                 continue
-            # the mark cell the shifted bit is combined with
-            cells = []
-            for m in f.walk():
-                if m["k"] in ("bin", "var") and any(x["id"] == n["id"] for x in walk(m)):
-                    cells += [x for x in walk(m) if x["k"] == "sub" and strip_casts(x["base"])["k"] == "member"
-                              and strip_casts(x["base"])["field"] == "ln_glob"]
+            # the mark cell the shifted bit is combined with (in the same statement, or through a
+            # local that holds the bit)
+            cells = [x for x in f.walk() if x["k"] == "sub" and strip_casts(x["base"])["k"] == "member"
+                     and strip_casts(x["base"])["field"] == "ln_glob"]
             if not cells:
                 continue
             bits = _TYBITS.get(cells[0].get("ty"))
@@ -1296,7 +1294,16 @@ def rule_O3(ctx):
     for n, lv, op, rhs in stores(dm.body):
         if lv["k"] == "un" and lv["op"] == "*" and strip_casts(lv["e"])["k"] == "ref" and strip_casts(lv["e"])["name"] in pn and rhs is not None:
             nm = strip_casts(lv["e"])["name"]
-            subs = [x for x in walk(rhs) if x["k"] == "sub" and strip_casts(x["base"])["k"] == "ref" and strip_casts(x["base"])["name"] == "subs"]
+            def subs_of(e_, depth=0):
+                out_ = [x for x in walk(e_) if x["k"] == "sub" and strip_casts(x["base"])["k"] == "ref" and strip_casts(x["base"])["name"] == "subs"]
+                if depth < 2:
+                    for r_ in refs(e_):
+                        if r_.get("cat") == "local":
+                            d_ = resolve_local(dm, r_)
+                            if d_ is not None and d_["id"] != r_["id"]:
+                                out_ += subs_of(d_, depth + 1)
+                return out_
+            subs = subs_of(rhs)
             if not subs:
                 if any(r_["name"] == "grp" for r_ in refs(rhs)):
                     role["rec"] = pn.index(nm)
@@ -1308,7 +1315,7 @@ def rule_O3(ctx):
                 role["we"] = pn.index(nm)
             elif any(c_ is None for c_ in ci):
                 odd = any("+1" in key(x["idx"]).replace(" ", "") for x in subs if cval(x["idx"]) is None)
-                role["ce" if odd else "cb"] = pn.index(nm)
+                role.setdefault("ce" if odd else "cb", pn.index(nm))
     for c in dm.calls("conf_dirmark"):
         for a_ in c["args"]:
             a_ = strip_casts(a_)
